@@ -25,7 +25,7 @@ class Contract:
                  raises_unchanged=True, frame=None, pure=False, returns=None, loops=(), total=True,
                  props=(), hooks=None, locals=None, defaults=None, is_property=False,
                  uf_params=None, assumed=False, note="", ghost=None, exc_props=None,
-                 stop_ensures=(), bounded=(), globals=None, hints=None):
+                 stop_ensures=(), bounded=(), globals=None, hints=None, yields_range=None):
         self.name = name
         self.short = name.split(".")[-1]
         self.params = OrderedDict(params)     # name -> type descriptor
@@ -55,6 +55,8 @@ class Contract:
         # cut lemmas: after an assignment to <name>, prove (then use) these facts: splits one hard
         # obligation into small ones; they are obligations, never assumptions
         self.hints = dict(hints or {})
+        # generator that is exactly `yield from range(lo, hi, step)`: (lo expr, hi expr, step int)
+        self.yields_range = yields_range
 
     def default_value(self, nm, engine):
         from .engine import State
